@@ -270,6 +270,24 @@ impl Property for C04 {
             if let Ok(r2) = guard(std::panic::AssertUnwindSafe(|| ga.boolean_op(&gb, *op))) {
                 obs.expect(r2 == r, &format!("{name}|boolean_op-differs"), || ctx());
             }
+            // a Polygon as receiver / as argument goes through `impl BooleanOps for Polygon` and must give the same
+            let single = |m: &MultiPolygon<f64>| if m.0.len() == 1 { Some(m.0[0].clone()) } else { None };
+            if let Some(pa1) = single(&ga) {
+                if let Ok(r3) = guard(std::panic::AssertUnwindSafe(|| pa1.boolean_op(&gb, *op))) {
+                    obs.label("receiver:Polygon");
+                    obs.expect(r3 == r, &format!("{name}|Polygon-receiver-differs"), || ctx());
+                }
+                if let Some(pb1) = single(&gb) {
+                    if let Ok(r4) = guard(std::panic::AssertUnwindSafe(|| match i { 0 => pa1.intersection(&pb1), 1 => pa1.union(&pb1), 2 => pa1.difference(&pb1), _ => pa1.xor(&pb1) })) {
+                        obs.expect(r4 == r, &format!("{name}|Polygon/Polygon-differs"), || ctx());
+                    }
+                }
+            }
+            if let Some(pb1) = single(&gb) {
+                if let Ok(r5) = guard(std::panic::AssertUnwindSafe(|| ga.boolean_op(&pb1, *op))) {
+                    obs.expect(r5 == r, &format!("{name}|Polygon-argument-differs"), || ctx());
+                }
+            }
             // (0) every hole lies within its own exterior; with a mis-bound hole the per-polygon membership
             //     failures are consequences of that one root cause, so membership is then judged by
             //     even-odd parity over all rings (the covered region whichever shell owns each hole)
@@ -360,6 +378,24 @@ impl Property for C04 {
                         let misbound = misbound_hole(&u, 4.0 * delta_l * s);
                         if let Some(class) = misbound {
                             obs.fail(format!("unary_union|hole-outside-its-shell|{class}"), format!("result {:?}; {}", u, ctx()));
+                        }
+                        // winding and closure of the result, as for the binary operations
+                        for p in &u.0 {
+                            let e = ring_area2(p.exterior());
+                            obs.expect(p.exterior().is_closed() && p.interiors().iter().all(|h| h.is_closed()), "unary_union|ring-not-closed", || ctx());
+                            obs.expect(e > 0.0 || e.abs() <= area_tol, "unary_union|exterior-not-ccw", || format!("exterior {:?} has signed area {}; {}", p.exterior().0, e * 0.5, ctx()));
+                            for h in p.interiors() {
+                                let ha = ring_area2(h);
+                                obs.expect(ha < 0.0 || ha.abs() <= area_tol, "unary_union|hole-not-cw", || format!("hole {:?} has signed area {}; {}", h.0, ha * 0.5, ctx()));
+                            }
+                        }
+                        // the same members grouped into MultiPolygon items (same rings in the same order)
+                        if members.len() >= 2 {
+                            let cut = 1 + (c.flips as usize >> 7) % (members.len() - 1);
+                            let groups = [MultiPolygon::new(members[..cut].to_vec()), MultiPolygon::new(members[cut..].to_vec())];
+                            if let Ok(u2) = guard(std::panic::AssertUnwindSafe(|| unary_union(groups.iter()))) {
+                                obs.expect(u2 == u, "unary_union|MultiPolygon-items-differ", || format!("{:?} vs {:?}; {}", u2, u, ctx()));
+                            }
                         }
                         let mut bad = None;
                         for (cl, rb) in cells.iter().zip(robust.iter()) {
